@@ -156,7 +156,42 @@ def rule_control(ck):
                 ck.violation(f"metacommands::{fn.name}", f"'{name}' can stop the file but takes operands: its thunk may stay unevaluated and raise CompilerStopIteration later, outside compile_block's handler", construct=f"stopper with operands {name}")
 
 
+TRICKY = ["", "\n", ";", "\"", "'", "mov", "mov ,", "(", ")", "<", ">", "^", "^x", "^/", ".", "..", "1:", "1::", "a=", "=1", ".ascii", '.ascii "', ".ascii /x", "{", "}", ".repeat 2 {", ".repeat {", "}}",
+          "mov #", "mov @", "mov -(", "mov (r0", "mov (r0)+ +", "x = 1 +", "x = * 2", "x = 1 2", "x == ", "a: b: c:", "\t", "\x00", "\u00e9", "mov r0, r1, r2, r3", ".word ,", ".word 1,", "1, 2,", "'a'", '"ab"',
+          "^rabcd", "0x", "0b2", "089", "10.", "1.5", ".end junk ((", "end", "insert_file", "make_raw <", ".include", ".byte <", "a = b = c", "mov #<1", "mov #^/1", "lab : nop", "nop ; c\x0b\x0c", "nop\r\nnop\r\n",
+          "mov #2 *   , r0", ".word 1,, 2", "\tclr\t@#\t]", ". = ", ". = . +", "%", "mov %, r0", "clr @", "x = ^c", "x = ~", "x = -", "x = 1 _", "x = 'ab'c", ".rad50", ".rad50 /", "^r", "br 1$:", "1$", "$", "_", "a.b.c = 1",
+          ".repeat 2 { .repeat 2 { nop } }", ".repeat 2 { nop", "nop }", "mov (r0)+, (r1)+ \t ", "x = 1 ; \"unterminated in a comment", ".ascii \"a\\\"b\"", ".ascii \"a\\", ".ascii \"a\\x4", "<<", ">>", "x = 1 >> > 2"]
+
+
+def rule_parse_total(ck):
+    """The statement parser, executed (abstractly) on a corpus of degenerate and malformed texts: it ends - within the step budget - in a
+    parse tree, or in a failure that was preceded by an error diagnostic; never in another exception, never in silence."""
+    from .c05 import run_parser
+    from ..rules.world import eager_interp, emit_report_summary
+    repo = ck.repo
+    I = eager_interp(repo)
+    I.summaries = {"reports::emit_report": emit_report_summary}
+    I.explore(lambda: I.module_get("metacommands", "end"))
+    where = "parser::code"
+    for text in TRICKY:
+        for variant in (text, text + "\n"):
+            try:
+                r, pos, errs, raised = run_parser(I, "code", variant)
+            except Unknown as ex:
+                ck.unknown(f"{variant!r}: {ex}")
+                continue
+            ck.instance(("parse-total", variant), {"text": variant, "outcome": "tree" if raised is None else raised, "errors": errs} if len(variant) % 5 == 0 else None, fn=where)
+            if raised is None:
+                continue
+            if raised.startswith("NonTermination"):
+                ck.violation(where, f"parsing {variant!r} does not end: {raised}", construct="parser does not terminate")
+            elif raised != "UnrecoverableError" or not errs:
+                ck.violation(where, f"parsing {variant!r} ends in {raised} with the error diagnostics {errs}: a failure must be an UnrecoverableError that follows an error diagnostic "
+                                    "(anything else is the 'unexpected internal compiler error' path, or a failure without a reason)", construct="parser failure without diagnostic")
+
+
 def run(ck):
+    ck.run_rule("C08.parse", "the statement parser on 220 degenerate and malformed texts: a tree, or a diagnosed failure - and it ends", 180, rule_parse_total)
     ck.run_rule("G0", "every module of the package imports without raising", 12, escape.rule_G0)
     ck.run_rule("G2", "explicit raise/assert sites are discharged (reported first, contained, or in the reasoned table)", 80, escape.rule_G2)
     ck.run_rule("G2.cycle", "DeferredCycle is caught and reported where values are awaited", 2, escape.rule_cycle)
